@@ -84,6 +84,9 @@ SetVersion     == last' = Res /\ g' = IF g.init THEN g ELSE [g EXCEPT !.ver = TR
 SetLevel(l)    == last' = Res /\ g' = IF g.init THEN g ELSE [g EXCEPT !.level = l]
 SetMode(m)     == last' = Res /\ g' = IF g.init THEN g ELSE [g EXCEPT !.mode = m]
 SetRange(r)    == last' = Res /\ g' = IF g.init THEN g ELSE [g EXCEPT !.range = r]
+\* the mode named by its catalogue label (set_decay_dbd_mode_by_label): m > 0 = the unique label of mode m, 0 = a label that
+\* names no mode (the mode becomes undefined).  A configuration call like the others: refused once initialised.
+SetModeByLabel(m) == last' = Res /\ g' = IF g.init THEN g ELSE [g EXCEPT !.mode = m]
 
 AddOp ==
   /\ g.nops < MaxOps
@@ -118,6 +121,7 @@ Next ==
   \/ SetVersion
   \/ \E l \in Levels : SetLevel(l)
   \/ \E m \in Modes : SetMode(m)
+  \/ \E m \in {x \in Modes : x \in 0..24} : SetModeByLabel(m)
   \/ \E r \in Ranges : SetRange(r)
   \/ AddOp \/ AddNullOp \/ Initialize \/ Shoot \/ Reset \/ Recreate
 
